@@ -152,8 +152,46 @@ impl Prop for C07 {
             }
         }
         ladder(sink);
+        // state carried from one literal to the next: every literal of a small list after every
+        // string of a list the literal grammar rejects half-way
+        for bad in ["1e5e3", "1e5.3", "1.5e5e3", "12.75e99999999999", "12e", "1.2.3", "1e", "1e+", "1e-", "--1", "1ee5", "3.e", "9e9e9e9", "45.6.7e1", "1e5x", "0x1F", "1_000"] {
+            for good in ["7", "2.5", "0.125", "-3", "1e2", ".5", "12345678901234567890"] {
+                sink(Case::new("after-rejected", format!("{bad}|{good}")));
+            }
+        }
     }
     fn check(&self, env: &mut Env, case: &Case) -> Verdict {
+        if case.fam == "after-rejected" {
+            // a short history in one thread: a string that is not a literal is offered first (to
+            // `str::parse`, as a query of its own, and as a group in front of the literal), then the
+            // literal; what the literal denotes must not depend on what was rejected before it
+            let (bad, good) = case.key.split_once('|').unwrap();
+            let want = ref_decimal(good).unwrap();
+            let _ = bad.parse::<anything::Rational>();
+            match good.parse::<anything::Rational>() {
+                Ok(r) if obs::rat_of(&r) == want => {}
+                Ok(r) => return fw::fail("after-rejected:parse", format!("after str::parse::<Rational>({bad:?}), str::parse::<Rational>({good:?}) = {}, literal denotes {want}", obs::rat_of(&r))),
+                Err(_) => return fw::fail("after-rejected:parse-reject", format!("after str::parse::<Rational>({bad:?}), {good:?} is rejected")),
+            }
+            let _ = obs::eval(env.db(), bad);
+            match obs::eval_one(env.db(), good) {
+                Ok(Res::Ok { value, .. }) if value == want => {}
+                Ok(r) => return fw::fail("after-rejected:query", format!("after the query {bad:?}, the query {good:?} gave {}, literal denotes {want}", r.short())),
+                Err(why) => return fw::fail("after-rejected:query", format!("after the query {bad:?}, the query {good:?}: {why}")),
+            }
+            // in one query: whatever the first group gives, a last result that is a value must be the literal
+            let q = format!("({bad}) ({good})");
+            if let Some(rs) = obs::eval(env.db(), &q) {
+                if rs.len() >= 2 {
+                    if let Some(Res::Ok { value, unit, .. }) = rs.last() {
+                        if unit.is_empty() && *value != want {
+                            return fw::fail("after-rejected:group", format!("{q}: the last result is {value}, the literal {good} denotes {want}"));
+                        }
+                    }
+                }
+            }
+            return fw::pass(true, fw::hash_str(&want.to_string()));
+        }
         let s = &case.key;
         let want = match ref_decimal(s) {
             Some(v) => v,
